@@ -27,7 +27,22 @@
 
    Byte positions are real integers: a data frame carries the interval (lo, hi] of the
    writer's plaintext stream, so every write-size / read-size pattern is represented
-   exactly, not by classes.                                                          *)
+   exactly, not by classes.
+
+   PROPERTIES (DESIGN.md section 5, C16): Authenticated (AuthenticatedExceptSelf + the known
+   finding, see below), NonceFresh, PrefixExact, TamperFails, DeliveredExact; IdentityBound
+   lives in TMPeerUpgrade.tla.  TamperFails is stated as the property statement has it ("the
+   reader fails; never altered or out-of-order plaintext"): after a failed Read the code does
+   NOT poison the connection, so a frame M merely inserted is refused and the genuine next
+   frame is still accepted afterwards -- in order, which the statement allows.
+
+   NOT MODELLED (named so that nobody takes them for covered): an ephemeral-key message of a
+   length other than 32 (the code zero-pads / truncates it), an AuthSigMessage spread over
+   several frames or followed by data in the same frame (only a key holder can do that), the
+   chunkLength > dataMaxSize error (ditto), a public key of another type than ed25519,
+   concurrent callers of Write / Read (the two mutexes), nonce overflow (2^64 frames), and
+   more than one session per honest party (earlier sessions appear only as the signatures
+   Sig(., OldChal) the attacker holds).                                               *)
 EXTENDS Integers, Sequences, FiniteSets, TLC
 
 CONSTANTS
